@@ -63,8 +63,30 @@ func vAnyPt(name string, i int, anyMask int) geometry.Point {
 }
 
 type vJSONCase struct {
-	obj  Object
-	want []byte
+	obj   Object
+	want  []byte
+	want2 []byte // second acceptable serialisation (nil: none)
+}
+
+// member texts given to NewFeature and what must follow the geometry in the output: the members of a JSON object
+// text are spliced in (whitespace removed), "properties":{} is added when the text has no top-level properties
+// member, anything that is not a JSON object is ignored. NewFeature drops a member called "feature"; both
+// the output with and without it are accepted (tail2).
+var vMembers = [...]struct{ text, tail, tail2 string }{
+	0:  {``, `,"properties":{}}`, ``},
+	1:  {`{}`, `,"properties":{}}`, ``},
+	2:  {`{ }`, `,"properties":{}}`, ``},
+	3:  {`{"id":1}`, `,"id":1,"properties":{}}`, ``},
+	4:  {`{"properties":{"a":1}}`, `,"properties":{"a":1}}`, ``},
+	5:  {` { "id" : "x" , "properties" : { } } `, `,"id":"x","properties":{}}`, ``},
+	6:  {`[1,2]`, `,"properties":{}}`, ``},
+	7:  {`"str"`, `,"properties":{}}`, ``},
+	8:  {`{"feature":1}`, `,"properties":{}}`, `,"feature":1,"properties":{}}`},
+	9:  {`{"a":{"properties":1}}`, `,"a":{"properties":1},"properties":{}}`, ``},
+	10: {`not json`, `,"properties":{}}`, ``},
+	11: {`{"id":2,"feature":{"x":1}}`, `,"id":2,"properties":{}}`, `,"id":2,"feature":{"x":1},"properties":{}}`},
+	12: {"{\n}", `,"properties":{}}`, ``},
+	13: {`{"properties":null}`, `,"properties":null}`, ``},
 }
 
 // vJSONObj builds object `kind` and its reference serialisation. anyAt selects the position whose ordinates are
@@ -84,18 +106,18 @@ func vJSONObj(kind, n, m, dims, anyAt int) vJSONCase {
 		if dims == 0 {
 			want = oPos(want, p, nil)
 			want = append(want, '}')
-			return vJSONCase{NewPoint(p), want}
+			return vJSONCase{obj: NewPoint(p), want: want}
 		}
 		z := vFAny("z", 0)
 		want = oPos(want, p, []float64{z})
 		want = append(want, '}')
-		return vJSONCase{NewPointZ(p, z), want}
+		return vJSONCase{obj: NewPointZ(p, z), want: want}
 	case 1: // SimplePoint
 		p := pt("p", 0)
 		want = append(want, `{"type":"Point","coordinates":`...)
 		want = oPos(want, p, nil)
 		want = append(want, '}')
-		return vJSONCase{NewSimplePoint(p), want}
+		return vJSONCase{obj: NewSimplePoint(p), want: want}
 	case 2: // LineString of n points, dims extra ordinates
 		pts := make([]geometry.Point, n)
 		for i := range pts {
@@ -114,7 +136,7 @@ func vJSONObj(kind, n, m, dims, anyAt int) vJSONCase {
 		want = append(want, `{"type":"LineString","coordinates":`...)
 		want = oSeries(want, pts, dims, vals, &k)
 		want = append(want, '}')
-		return vJSONCase{g, want}
+		return vJSONCase{obj: g, want: want}
 	case 3: // Polygon: exterior n (closed by repeating the first), hole m (0 none), dims extra ordinates
 		ext := make([]geometry.Point, n)
 		for i := range ext {
@@ -155,7 +177,7 @@ func vJSONObj(kind, n, m, dims, anyAt int) vJSONCase {
 			}
 		}
 		want = append(want, `]}`...)
-		return vJSONCase{g, want}
+		return vJSONCase{obj: g, want: want}
 	case 4: // Rect
 		a, b := pt("r", 0), pt("r", 1)
 		r := geometry.Rect{Min: a, Max: b}
@@ -164,7 +186,7 @@ func vJSONObj(kind, n, m, dims, anyAt int) vJSONCase {
 		want = append(want, `{"type":"Polygon","coordinates":[`...)
 		want = oSeries(want, ring, 0, nil, &k)
 		want = append(want, `]}`...)
-		return vJSONCase{NewRect(r), want}
+		return vJSONCase{obj: NewRect(r), want: want}
 	case 5: // Circle
 		c := pt("c", 0)
 		rad := vFAny("rad", 0)
@@ -175,21 +197,108 @@ func vJSONObj(kind, n, m, dims, anyAt int) vJSONCase {
 		want = append(want, `]},"properties":{"type":"Circle","radius":`...)
 		want = oFloat(want, rad)
 		want = append(want, `,"radius_units":"m"}}`...)
-		return vJSONCase{NewCircle(c, rad, 3), want}
+		return vJSONCase{obj: NewCircle(c, rad, 3), want: want}
 	case 6: // Feature wrapping a LineString of n points
 		inner := vJSONObj(2, n, 0, dims, anyAt)
 		want = append(want, `{"type":"Feature","geometry":`...)
 		want = append(want, inner.want...)
 		want = append(want, `,"properties":{}}`...)
-		return vJSONCase{NewFeature(inner.obj, ""), want}
+		return vJSONCase{obj: NewFeature(inner.obj, ""), want: want}
+	case 11: // Feature with member text number n (table vMembers) around a Point
+		inner := vJSONObj(0, 0, 0, 0, anyAt)
+		mt := vMembers[n]
+		want = append(want, `{"type":"Feature","geometry":`...)
+		want = append(want, inner.want...)
+		want = append(want, mt.tail...)
+		c := vJSONCase{obj: NewFeature(inner.obj, mt.text), want: want}
+		if mt.tail2 != "" {
+			c.want2 = append(c.want2, `{"type":"Feature","geometry":`...)
+			c.want2 = append(c.want2, inner.want...)
+			c.want2 = append(c.want2, mt.tail2...)
+		}
+		return c
+	case 12: // MultiPoint of n points
+		pts := make([]geometry.Point, n)
+		for i := range pts {
+			pts[i] = pt("mp", i)
+		}
+		want = append(want, `{"type":"MultiPoint","coordinates":[`...)
+		for i, p := range pts {
+			if i > 0 {
+				want = append(want, ',')
+			}
+			want = oPos(want, p, nil)
+		}
+		want = append(want, `]}`...)
+		return vJSONCase{obj: NewMultiPoint(pts), want: want}
+	case 13: // MultiLineString: lines of n and m points (m < 0: one line only; n == 0 && m < 0: no lines)
+		var lines []*geometry.Line
+		want = append(want, `{"type":"MultiLineString","coordinates":[`...)
+		cnt := 0
+		for li, sz := range []int{n, m} {
+			if sz < 0 || (li == 0 && n == 0 && m < 0) {
+				continue
+			}
+			pts := make([]geometry.Point, sz)
+			for i := range pts {
+				pts[i] = pt("ml", cnt)
+				cnt++
+			}
+			lines = append(lines, geometry.NewLine(pts, vNoIdx))
+			if li > 0 {
+				want = append(want, ',')
+			}
+			k := 0
+			want = oSeries(want, pts, 0, nil, &k)
+		}
+		want = append(want, `]}`...)
+		return vJSONCase{obj: NewMultiLineString(lines), want: want}
+	case 14: // MultiPolygon: [polygon(n, hole m), triangle] (dims > 0: the triangle is left out; n == 0: no polygons)
+		var polys []*geometry.Poly
+		want = append(want, `{"type":"MultiPolygon","coordinates":[`...)
+		if n > 0 {
+			ext := make([]geometry.Point, n)
+			for i := range ext {
+				ext[i] = pt("pe", i)
+			}
+			ext = append(ext, ext[0])
+			var holes [][]geometry.Point
+			if m > 0 {
+				h := make([]geometry.Point, m)
+				for i := range h {
+					h[i] = pt("ph", i+100)
+				}
+				h = append(h, h[0])
+				holes = append(holes, h)
+			}
+			polys = append(polys, geometry.NewPoly(ext, holes, vNoIdx))
+			want = append(want, '[')
+			k := 0
+			want = oSeries(want, ext, 0, nil, &k)
+			for _, h := range holes {
+				want = append(want, ',')
+				want = oSeries(want, h, 0, nil, &k)
+			}
+			want = append(want, ']')
+			if dims == 0 {
+				t := []geometry.Point{pt("pt", 200), pt("pt", 201), pt("pt", 202)}
+				t = append(t, t[0])
+				polys = append(polys, geometry.NewPoly(t, nil, vNoIdx))
+				want = append(want, `,[`...)
+				want = oSeries(want, t, 0, nil, &k)
+				want = append(want, ']')
+			}
+		}
+		want = append(want, `]}`...)
+		return vJSONCase{obj: NewMultiPolygon(polys), want: want}
 	case 9, 10: // GeometryCollection / FeatureCollection whose children are all empty: [Polygon(nil), empty LineString]
 		e1, e2 := NewPolygon(nil), NewLineString(geometry.NewLine(nil, vNoIdx))
 		if kind == 9 {
 			want = append(want, `{"type":"GeometryCollection","geometries":[{"type":"Polygon","coordinates":[]},{"type":"LineString","coordinates":[]}]}`...)
-			return vJSONCase{NewGeometryCollection([]Object{e1, e2}), want}
+			return vJSONCase{obj: NewGeometryCollection([]Object{e1, e2}), want: want}
 		}
 		want = append(want, `{"type":"FeatureCollection","features":[{"type":"Feature","geometry":{"type":"Polygon","coordinates":[]},"properties":{}}]}`...)
-		return vJSONCase{NewFeatureCollection([]Object{NewFeature(e1, "")}), want}
+		return vJSONCase{obj: NewFeatureCollection([]Object{NewFeature(e1, "")}), want: want}
 	case 7, 8: // GeometryCollection / FeatureCollection of [Point, Polygon(n,m), empty collection]
 		a := vJSONObj(0, 0, 0, 0, anyAt)
 		b := vJSONObj(3, n, m, dims, -1)
@@ -200,14 +309,14 @@ func vJSONObj(kind, n, m, dims, anyAt int) vJSONCase {
 			want = append(want, ',')
 			want = append(want, b.want...)
 			want = append(want, `,{"type":"GeometryCollection","geometries":[]}]}`...)
-			return vJSONCase{NewGeometryCollection([]Object{a.obj, b.obj, e}), want}
+			return vJSONCase{obj: NewGeometryCollection([]Object{a.obj, b.obj, e}), want: want}
 		}
 		want = append(want, `{"type":"FeatureCollection","features":[{"type":"Feature","geometry":`...)
 		want = append(want, a.want...)
 		want = append(want, `,"properties":{}},{"type":"Feature","geometry":`...)
 		want = append(want, b.want...)
 		want = append(want, `,"properties":{}}]}`...)
-		return vJSONCase{NewFeatureCollection([]Object{NewFeature(a.obj, ""), NewFeature(b.obj, "")}), want}
+		return vJSONCase{obj: NewFeatureCollection([]Object{NewFeature(a.obj, ""), NewFeature(b.obj, "")}), want: want}
 	}
 	panic("bad kind")
 }
@@ -218,7 +327,11 @@ func H_JSON(p []int) {
 	c := vJSONObj(kind, n, m, dims, anyAt)
 	o := c.obj
 	got := o.AppendJSON(nil)
-	vAssert(string(got) == string(c.want), "C17.bytes-match-reference")
+	if c.want2 != nil {
+		vAssert(string(got) == string(c.want) || string(got) == string(c.want2), "C17.bytes-match-reference")
+	} else {
+		vAssert(string(got) == string(c.want), "C17.bytes-match-reference")
+	}
 	vAssert(o.JSON() == string(got), "C17.json-equals-append")
 	vAssert(o.String() == string(got), "C17.string-equals-append")
 	mj, err := o.MarshalJSON()
